@@ -109,6 +109,14 @@ func (op MultiStoreProofOp) Run(args [][]byte) ([][]byte, error) {
 	}
 
 	value := args[0]
+	// ComputeRootHash keys the store infos by name, so of two entries with one name only the last is hashed.
+	names := make(map[string]struct{}, len(op.Proof.StoreInfos))
+	for _, si := range op.Proof.StoreInfos {
+		if _, ok := names[si.Name]; ok {
+			return nil, errors.Errorf("duplicate substore %v in multistore proof", si.Name)
+		}
+		names[si.Name] = struct{}{}
+	}
 	root := op.Proof.ComputeRootHash()
 
 	for _, si := range op.Proof.StoreInfos {
